@@ -4,14 +4,15 @@
 #include <string.h>
 #include <stdint.h>
 static unsigned long vals[1024]; static int nv, pos, failures;
-static unsigned long next(void) { if (pos >= nv) { printf("REPLAY: nondet vector exhausted\n"); exit(3); } return vals[pos++]; }
+static int exhausted;
+static unsigned long next(void) { if (pos >= nv) { if (!exhausted) printf("NOTE: nondet vector exhausted (values past the end are 0)\n"); exhausted = 1; return 0; } return vals[pos++]; }
 unsigned nondet_uint(void) { return (unsigned)next(); }
 int nondet_int(void) { return (int)next(); }
 unsigned long nondet_ulong(void) { return next(); }
 _Bool nondet_bool(void) { return next() & 1; }
 uint64_t __undef_u64(void) { return 0xA5A5A5A5A5A5A5A5ULL; }
 double __undef_f64(void) { return 12345.5; }
-void cprover_assume(int c) { if (!c) { printf("REPLAY: assumption violated\n"); exit(3); } }
+void cprover_assume(int c) { if (!c) { printf(exhausted ? "NOTE: stopped at an assumption after the vector was exhausted\n" : "REPLAY: assumption violated\n"); fflush(stdout); exit(exhausted ? (failures ? 1 : 0) : 3); } }
 void cprover_assert(int c, const char *m) {
     if (strncmp(m, "REACH: ", 7) == 0) { printf("%s\n", m); return; }
     if (strncmp(m, "unwinding", 9) == 0 || strncmp(m, "UB: ", 4) == 0 || strncmp(m, "MON: ", 5) == 0) { if (!c) { printf("ASSERT FAIL: %s\n", m); ++failures; } return; }
